@@ -295,11 +295,19 @@ def run(project, chk):
         # rgb(): (max(0, min(255, r)), ...)
         if o[0] == "tuple" and len(o[1]) == 3 and all(x[0] == "call" and x[1] == "builtins.max" for x in o[1]):
             inner = []
+            bounds = set()
             for x in o[1]:
                 mn = [a for a in x[2] if a[0] == "call" and a[1] == "builtins.min"]
-                lo = [a for a in x[2] if a == ("const", 0)]
-                if len(mn) == 1 and lo and ("const", 255) in mn[0][2]:
-                    inner.append([a for a in mn[0][2] if a != ("const", 255)][0])
+                lo = [a for a in x[2] if a[0] == "const"]
+                if len(mn) == 1 and lo:
+                    hi = [a for a in mn[0][2] if a[0] == "const"]
+                    rest = [a for a in mn[0][2] if a[0] != "const"]
+                    if len(hi) == 1 and len(rest) == 1:
+                        bounds.add((lo[0][1], hi[0][1]))
+                        inner.append(rest[0])
+            if len(inner) == 3:
+                chk.check(bounds == {(0, 255)}, "N3", fi.short, norm_text(node.ast), loc, "rgb() channels are clamped to 0..255", how=f"clamp bounds {sorted(bounds)}",
+                          message=f"rgb() channels are clamped to {sorted(bounds)} instead of 0..255")
             if len(inner) == 3 and all(v[0] == "call" and v[1] == "builtins.int" for v in inner):
                 n_rgb += 1
                 ok = all(is_component(v, k) for k, v in enumerate(inner))
@@ -316,6 +324,44 @@ def run(project, chk):
                 chk.check(ok, "N3", fi.short, norm_text(node.ast), loc, "rgba(): (int(round(component k)) for k = 0..2, alpha = token 3 scaled as alpha) handed to the compositor",
                           how=f"origins: {[oshow(v)[:50] for v in r4]}", message=f"rgba() components / alpha are not scaled as CSS defines: {[oshow(v)[:60] for v in r4]}")
     chk.floor("rgb()/rgba() return sites recognised in parse_color_to_rgb", n_rgb, 2)
+
+    # ---------------------------------------------------------------- N6: a tuple/list of three 8-bit ints parses to itself
+    chk.rule("N6", "tuple/list input: an int component c with 0 <= c <= 255 is taken as it is (the per-component decision chain, partially evaluated for ints, is `0 <= c <= 255 ? int(c) : raise`), then clamped/validated in 0..255")
+    import copy as _copy
+    from sa.formula import Extractor, rebuild_node
+    pfi = project.func(f"{PAR}.parse_color_to_rgb")
+    color_param = pfi.params()[0]
+    loops = [n for n in own_nodes(pfi.node) if isinstance(n, ast.For) and isinstance(n.iter, ast.Name) and n.iter.id == color_param and isinstance(n.target, ast.Name)]
+    if len(loops) != 1:
+        raise AnalysisError(f"{pfi.short}: expected one loop over the components of the tuple input, found {len(loops)}")
+    lp = loops[0]
+
+    class _AppendToReturn(ast.NodeTransformer):
+        def visit_Expr(self, n):
+            v = n.value
+            if isinstance(v, ast.Call) and isinstance(v.func, ast.Attribute) and v.func.attr == "append" and len(v.args) == 1:
+                return ast.copy_location(ast.Return(value=v.args[0]), n)
+            return n
+    body = [_AppendToReturn().visit(_copy.deepcopy(st)) for st in lp.body]
+    fn = ast.FunctionDef(name="component", args=ast.arguments(posonlyargs=[], args=[ast.arg(arg=lp.target.id)], kwonlyargs=[], kw_defaults=[], defaults=[]), body=body, decorator_list=[], lineno=lp.lineno, col_offset=0)
+    ast.fix_missing_locations(fn)
+    try:
+        ex = Extractor(project, pfi, fn, Scope(project, pfi))
+        env, comp = ex.run()
+    except Unsupported as e:
+        raise AnalysisError(f"ANALYSIS-INCONCLUSIVE {pfi.short}: per-component decision chain not readable ({e})")
+    cvar = ("var", lp.target.id)
+
+    def for_int(n):
+        if n[0] == "call" and n[1] == "isinstance" and n[2][0] == cvar and n[2][1][0] == "op":
+            names = {x[1] for x in n[2][1][2] if x[0] == "var"}
+            return ("lit", "int" in names or "bool" in names)
+        return n
+    pe = transform(comp, for_int)
+    want_a = ("ite", ("and", (("cmp", "<=", ("num", 0), cvar), ("cmp", "<=", cvar, ("num", 255)))), ("call", "int", (cvar,)), RAISE)
+    want_b = ("ite", ("and", (("cmp", "<=", ("num", 0), cvar), ("cmp", "<=", cvar, ("num", 255)))), cvar, RAISE)
+    chk.check(pe in (want_a, want_b), "N6", pfi.short, "per-component chain for int input", project.loc(pfi.module, lp), "an int component in 0..255 is kept as it is; any other int is rejected",
+              how=f"partial evaluation for ints: {show(pe)[:120]}", message=f"for an int component the decision chain reduces to {show(pe)[:200]} instead of `0 <= c <= 255 ? int(c) : raise`: a tuple of three 8-bit ints does not parse to itself")
 
     # ---------------------------------------------------------------- N4 hex
     fi = project.func(f"{CONV}.hex_to_rgb")
